@@ -129,6 +129,20 @@ class C20(HistoryProperty):
         ds_any = [x for x in spec["roots"] if gen.node_by_id(spec, x)["k"] == "dataset"]
         if ds_any and rng.random() < 0.4:
             after.insert(rng.randrange(len(after) + 1), {"op": "try_overload", "ds": rng.choice(ds_any), "alias": rng.choice(["a", "q"])})
+        if rng.random() < 0.2:
+            # options grouped in a namespace, consumed by a dataset (the namespace object itself is part of the graph)
+            k = len(spec["nodes"]) + 50
+            members = [{"t": "const", "name": "P", "v": rng.choice([1, "p", None])}, {"t": "sub", "name": "SUB", "v": rng.choice([0, "x"])}]
+            if rng.random() < 0.5:
+                members.append({"t": "annot", "name": "REQ"})
+            spec["nodes"] += [{"k": "namespace", "name": "NSP", "members": members, "id": f"ns{k}"},
+                              {"k": "dataset", "name": "OVERNS", "args": {"ns": f"ns{k}"}, "id": f"ns{k + 1}"}]
+            spec["roots"] = spec["roots"] + [f"ns{k + 1}"]
+            for _ in range(2):
+                o = {"NSP": {"P": rng.choice([2, "q"])}} if rng.random() < 0.5 else {}
+                if rng.random() < 0.6:
+                    o.setdefault("NSP", {})["REQ"] = "r"
+                after.insert(rng.randrange(len(after) + 1), {"op": rng.choice(["evaluate", "keys", "validate"]), "node": f"ns{k + 1}", "o": o})
         pre = []
         if rng.random() < 0.35:
             # a cyclic graph: an overload of D that (indirectly) refers back to D through a with_options derivative of D
